@@ -107,6 +107,20 @@ static void run_script(const std::vector<std::string>& lines) {
             int bad = 0; for (auto& h : hits) if (h.load() != 1) bad++;
             R << "indices=" << hits.size() << " not_once=" << bad << " oob=" << oob.load();
         }
+        else if (op == "churn") { // churn <count> <workers>: dispatchers destroyed while their workers are still busy or starting
+            int count; unsigned w; in >> count >> w;
+            auto* saved = mustache_verif_sched; mustache_verif_sched = nullptr;      // not part of the recorded trace
+            std::atomic<int> ran{0};
+            for (int i = 0; i < count; ++i) {
+                auto dsp = std::make_unique<Dispatcher>(w);
+                for (unsigned k = 0; k < w; ++k) dsp->addParallelTask([&ran, k](ThreadId) { volatile int x = 0; for (unsigned j = 0; j < 200 + 97 * k; ++j) x += j; ran++; });
+                alarm(10);        // a destructor that never returns ends the script with SIGALRM
+                dsp.reset();
+                alarm(0);
+            }
+            mustache_verif_sched = saved;
+            R << "destroyed=" << count;
+        }
         else if (op == "single") { int on; in >> on; disp->setSingleThreadMode(on != 0); }
         else if (op == "sleep") { int us; in >> us; std::this_thread::sleep_for(std::chrono::microseconds(us)); }
         else if (op == "del") {
